@@ -176,7 +176,7 @@ var annTypes = []string{"Handler", "number", "string", "boolean", "table", "any"
 func (g *luaGen) annType() string { return annTypes[g.r.Intn(len(annTypes))] }
 
 func (g *luaGen) annotation() string {
-	switch g.r.Intn(19) {
+	switch g.r.Intn(20) {
 	case 0:
 		return "---@class " + g.cls() + " : " + g.cls() + "\n---@field " + g.name() + " " + g.annType() + "\nlocal " + g.name() + " = {}"
 	case 1:
@@ -207,6 +207,20 @@ func (g *luaGen) annotation() string {
 		return "---@" + []string{"class", "type", "alias", "param", "return", "field", "generic", "overload", "enum", "vararg"}[g.r.Intn(10)] + " " + []string{"", ":", "|", "<", "[]", "fun(", "table<", ",", "@", "(", ")"}[g.r.Intn(11)]
 	case 14:
 		return "---@class " + g.cls() + "\n" + g.cls() + " = " + g.cls()
+	case 18:
+		// an enum section (---@enum start ... ---@enum end): values are compared pairwise
+		v := []string{"1", "(1)", "((2))", "A", "(A)", "\"s\"", "(\"s\")", "1.5", "(g.x)", "-1", "(-1)"}
+		var sb strings.Builder
+		sb.WriteString("---@enum start\n")
+		for i := 0; i < 2+g.r.Intn(4); i++ {
+			pre := ""
+			if g.r.Intn(2) == 0 {
+				pre = "local "
+			}
+			sb.WriteString(pre + "E" + fmt.Sprint(i) + "_" + g.name() + " = " + v[g.r.Intn(len(v))] + "\n")
+		}
+		sb.WriteString("---@enum end")
+		return sb.String()
 	case 15:
 		// function-typed alias (often defined in one file and used in another: names are shared)
 		return "---@alias Handler fun(a:number, b:" + g.annType() + "):" + g.annType() + "\n---@alias Alias2 Handler"
